@@ -86,14 +86,18 @@ fn vq_c04_max_streams_decode() {
     // RFC 9000 4.6: "If a max_streams transport parameter or a MAX_STREAMS frame is received with a value greater
     // than 2^60 ... the connection MUST be closed immediately with a connection error of type ...
     // FRAME_ENCODING_ERROR if it was received in a frame"; 19.14 likewise for STREAMS_BLOCKED
-    assert!(ok == (value <= MAX_STREAMS), "C04/max_streams.decode/err_iff_value_over_2_60");
-    assert!(!ok || consumed, "C04/max_streams.decode/consumes_the_frame");
-    assert!(!ok || right, "C04/max_streams.decode/ok_yields_the_value_and_stream_type");
+    if is_max_streams {
+        assert!(ok == (value <= MAX_STREAMS), "C04/max_streams.decode/err_iff_value_over_2_60");
+        assert!(!ok || (consumed && right), "C04/max_streams.decode/ok_yields_the_value_and_stream_type");
+    } else {
+        assert!(ok == (value <= MAX_STREAMS), "C04/streams_blocked.decode/err_iff_value_over_2_60");
+        assert!(!ok || (consumed && right), "C04/streams_blocked.decode/ok_yields_the_value_and_stream_type");
+    }
     // the prescribed code, or the generic PROTOCOL_VIOLATION that RFC 9000 11 permits in its place
     let permitted = err_code == code_frame_encoding_error()
         || err_code == code_protocol_violation()
         || (!is_max_streams && err_code == code_stream_limit_error());
-    assert!(ok || permitted, "C04/max_streams.decode/err_maps_to_frame_encoding_error_or_permitted_generic_code");
+    assert!(ok || permitted, "C04/max_streams.decode/err_maps_to_frame_encoding_error_or_a_permitted_code");
     kani::cover!(ok && value == MAX_STREAMS, "reach:exactly_2_60_accepted");
     kani::cover!(!ok && value == MAX_STREAMS + 1, "reach:2_60_plus_1_rejected");
     kani::cover!(!ok && tag == 0x17, "reach:streams_blocked_rejected");
